@@ -339,7 +339,7 @@ def run_model(model, path):
     return parse_out(p.stdout)
 
 
-HP_SETTINGS = ["", "16,1,16,0", "24,2,64,1", "17,1,17,1", "32,8,100,0"]
+HP_SETTINGS = ["", "0,1,0,0", "1,2,64,1", "0,1,17,1", "8,8,100,0", "3,3,500,0"]      # extra hazard pointers, max threads, max retired, scan type
 DHP_SETTINGS = ["", "4", "64"]
 
 
